@@ -35,6 +35,7 @@ GRACE = 2.5                   # time given to already-cancelled tasks / doomed t
 E_ICE_START, E_ICE_START_RET, E_DTLS_START, E_DTLS_START_RET, E_SEND, E_RECEIVE, E_SCTP_START = range(7)
 E_TASK_BEGIN, E_TASK_END, E_PUMP_END, E_MON_END, E_BYE, E_ICE_LOST, E_NEGO_SIG, E_CHAN_NEW = range(7, 15)
 E_CLOSE_CALL, E_CLOSE_RET, E_STOP_CALL, E_STOP_RET, E_CANCEL, E_ICE_CONN_CLOSED, E_SCTP_DOWN = range(15, 22)
+E_CAND_END = 22
 K_SRTP, K_SRTCP, K_RRTCP, K_PUMP = range(4)
 O_RECV, O_SEND, O_SCTP, O_DTLS, O_ICE = range(5)
 
@@ -61,6 +62,7 @@ class Run:
         self.channels = []       # per pc: channels
         self.tasks = {}          # (id(obj), kind) -> task
         self.rebundle = []       # per pc: setTransport after close() began / transceivers grew
+        self.ext_stopped = []    # per pc: transports stopped by a negotiation call
         self.ntrx_at_close = []
         self.recording = True
 
@@ -74,6 +76,7 @@ class Run:
         self.events_after.append([])
         self.channels.append([])
         self.rebundle.append(False)
+        self.ext_stopped.append(set())
         self.ntrx_at_close.append(None)
         p = len(self.pcs) - 1
         orig_emit = pc.emit
@@ -302,6 +305,14 @@ def install():
         return r
     CONN.close = conn_close
 
+    orig_add_cand = CONN.add_remote_candidate
+
+    async def add_remote_candidate(self, remote_candidate):
+        if remote_candidate is None and not self._remote_candidates_end and not _in_any_ice_stop.get():
+            _log_obj(self, ("c",), lambda r: (E_CAND_END, r[2]))
+        return await orig_add_cand(self, remote_candidate)
+    CONN.add_remote_candidate = add_remote_candidate
+
     orig_dtls_start = D.start
 
     async def dtls_start(self, remoteParameters):
@@ -426,6 +437,12 @@ def install():
     orig_ice_stop_any = I.stop
 
     async def ice_stop_any(self):
+        run = RUN
+        if run is not None and run.recording and _in_close.get() is None:
+            # stopped by a negotiation call (bundling), not by close()
+            r = run.resolve(self)
+            if r is not None and r[1] == "i":
+                run.ext_stopped[r[0]].add(r[2])
         tok = _in_any_ice_stop.set(True)
         try:
             return await orig_ice_stop_any(self)
@@ -526,12 +543,14 @@ def _snapshot(run, p):
         pump = run.tasks.get((id(d), K_PUMP))
         mon = run.tasks.get((id(d.transport), "mon"))
         ct = d.transport._connection._query_consent_task
+        st_ev = getattr(d.transport, "_RTCIceTransport__start")
         tps.append([
             dmap[d._state],
             0 if pump is None else (3 if pump.done() else 2),
             imap[d.transport.state],
             0 if mon is None else (3 if mon.done() else 2),
             1 if (ct is not None and not ct.done()) else 0,
+            1 if (st_ev is not None and not st_ev.is_set()) else 0,
         ])
     sc = []
     if pc.sctp is not None:
@@ -543,7 +562,7 @@ def _snapshot(run, p):
 
 
 TP_EVENTS = (E_ICE_START, E_ICE_START_RET, E_DTLS_START, E_DTLS_START_RET, E_PUMP_END, E_MON_END, E_ICE_LOST,
-             E_ICE_CONN_CLOSED)
+             E_ICE_CONN_CLOSED, E_CAND_END)
 
 
 def _referenced(run, p):
@@ -589,7 +608,7 @@ def _config(run, p):
 
 
 def _blank_unused(snap, used):
-    snap[3] = [tp if i in used else [0, 0, 0, 0, 0] for i, tp in enumerate(snap[3])]
+    snap[3] = [tp if i in used else [0, 0, 0, 0, 0, 0] for i, tp in enumerate(snap[3])]
     return snap
 
 
@@ -815,8 +834,9 @@ async def _scenario(case, loop, run):
     close_ms = 0
     if t_fire[0] is not None and all(ret_time[p] is not None for p in req):
         close_ms = int(1000 * (max(ret_time[p] for p in req) - t_fire[0]))
-    skip = [1 if (run.rebundle[p] or (run.ntrx_at_close[p] is not None and
-                                       run.ntrx_at_close[p] != len(pcs[p].getTransceivers()))) else 0 for p in (0, 1)]
+    skip = [1 if (run.rebundle[p] or (run.ext_stopped[p] & _referenced(run, p)) or
+                  (run.ntrx_at_close[p] is not None and
+                   run.ntrx_at_close[p] != len(pcs[p].getTransceivers()))) else 0 for p in (0, 1)]
     detail = {"left": left_names, "threads": threads, "events_after": run.events_after, "nego": nego_info,
               "states": [[pc.signalingState, pc.iceConnectionState, pc.connectionState] for pc in pcs]}
     return {
